@@ -160,6 +160,14 @@ theorem ecGlob_pos (f : Nat) (hbody : ExecOK M f) (ed ed' : Ed) (loc cmd arg : B
     (hv : ∀ s, VGlob (f + 1) ed loc cmd arg s → LenLe M s.len) :
     PosOk M ed' ∧ ∀ s, VGlob (f + 1) ed loc cmd arg s → PosOk M s := by
   rw [ecGlob_eq'] at h
+  by_cases hdep : ed.xgdep ≥ 7
+  · rw [if_pos hdep] at h
+    cases h
+    refine ⟨hi.to rfl rfl rfl, ?_⟩
+    intro s hs
+    cases hs with
+    | scan hlt _ _ _ _ _ => omega
+  rw [if_neg hdep] at h
   -- the scan, when the run gets there
   have hscan : ∀ rc b e ed1 re ed2,
       exRegion ed (if loc.isEmpty && ed.xgdep == 0 then [37] else loc) = some ((rc, b, e), ed1) → (rc != 0) = false →
@@ -176,7 +184,7 @@ theorem ecGlob_pos (f : Nat) (hbody : ExecOK M f) (ed ed' : Ed) (loc cmd arg : B
     have e2 : PosOk M (gPrep ed1 arg) := e1.fr (fr_gPrep ed1 arg)
     obtain ⟨b0, _, _⟩ := hbe (by simpa using hrc)
     have e4 := gMark_pos (M := M) b e ((gPrep ed1 arg).xgdep + 1) e2
-    exact scan_pos f _ _ _ _ hbody _ _ _ _ e4 b0 hsc (fun s hs => hv s (VGlob.scan hr hrc hkw hre hs))
+    exact scan_pos f _ _ _ _ hbody _ _ _ _ e4 b0 hsc (fun s hs => hv s (VGlob.scan (by omega) hr hrc hkw hre hs))
   constructor
   · split at h
     · cases h
@@ -202,7 +210,7 @@ theorem ecGlob_pos (f : Nat) (hbody : ExecOK M f) (ed ed' : Ed) (loc cmd arg : B
               exact (gSweep_pos _ e3).to rfl rfl rfl
   · intro s hs
     cases hs with
-    | scan hr hrc hkw hre hsv =>
+    | scan _ hr hrc hkw hre hsv =>
       rw [hr] at h
       simp only [] at h
       rw [if_neg (by simpa using hrc), if_neg (by simpa using hkw), hre] at h
@@ -221,15 +229,16 @@ theorem ecAt_pos (f : Nat) (hcmd : CmdOK M f) (ed ed' : Ed) (loc cmd arg : Bytes
   rw [ecAt] at h
   -- the nested command line, when the run gets there
   have hnest : ∀ buf rc b e ed1 r2 ed2, regGet ed (regName arg) = some buf → exRegion ed loc = some ((rc, b, e), ed1) →
-      (rc != 0) = false → (cmd.headD 0 == 114 && cmd.getD 1 0 == 97) = false →
-      exCommand f { ed1 with xrow := b } buf = some (r2, ed2) →
-      PosOk M ed2 ∧ ∀ s, VCommand f { ed1 with xrow := b } buf s → PosOk M s := by
-    intro buf rc b e ed1 r2 ed2 hreg0 hr hrc hra hc
+      (rc != 0) = false → ed1.atDepth < 16 → (cmd.headD 0 == 114 && cmd.getD 1 0 == 97) = false →
+      exCommand f { ed1 with xrow := b, atDepth := ed1.atDepth + 1 } buf = some (r2, ed2) →
+      PosOk M ed2 ∧ ∀ s, VCommand f { ed1 with xrow := b, atDepth := ed1.atDepth + 1 } buf s → PosOk M s := by
+    intro buf rc b e ed1 r2 ed2 hreg0 hr hrc hdp hra hc
     obtain ⟨hreg, hbe, hb⟩ := exRegion_ok hr
     have e1 := hi.reg hreg
     obtain ⟨b0, _, _⟩ := hbe (by simpa using hrc)
     have hrow : RowOk M b := hi.row_reg (by omega) hb
-    exact hcmd { ed1 with xrow := b } _ _ _ (e1.row rfl hrow rfl) hc (fun s hs => hv s (VAt.cmd hreg0 hr hrc hra hs))
+    exact hcmd { ed1 with xrow := b, atDepth := ed1.atDepth + 1 } _ _ _ (e1.row rfl hrow rfl) hc
+      (fun s hs => hv s (VAt.cmd hreg0 hr hrc hdp hra hs))
   constructor
   · split at h
     · cases h; exact hi
@@ -245,20 +254,31 @@ theorem ecAt_pos (f : Nat) (hcmd : CmdOK M f) (ed ed' : Ed) (loc cmd arg : Bytes
           obtain ⟨b0, _, _⟩ := hbe (by simpa using hrc)
           have hrow : RowOk M b := hi.row_reg (by omega) hb
           have e2 : PosOk M { ed1 with xrow := b } := e1.row rfl hrow rfl
-          simp only [] at h
           split at h
-          · cases h; exact e2.to rfl rfl rfl
-          · rename_i hra
-            exact (hnest _ _ _ _ _ _ _ hreg0 hr (by simpa using hrc) (by simpa using hra) h).1
+          · cases h; exact e1.to rfl rfl rfl
+          · rename_i hdp
+            simp only [] at h
+            split at h
+            · cases h; exact e2.to rfl rfl rfl
+            · rename_i hra
+              split at h
+              · cases h
+              · rename_i r2 ed2 hx
+                cases h
+                exact ((hnest _ _ _ _ _ _ _ hreg0 hr (by simpa using hrc) (by omega) (by simpa using hra) hx).1).to
+                  rfl rfl rfl
   · intro s hs
     cases hs with
-    | cmd hreg0 hr hrc hra hsv =>
+    | cmd hreg0 hr hrc hdp hra hsv =>
       rw [hreg0] at h
       simp only [] at h
       rw [hr] at h
       simp only [] at h
-      rw [if_neg (by simpa using hrc), if_neg (by simpa using hra)] at h
-      exact (hnest _ _ _ _ _ _ _ hreg0 hr hrc hra h).2 s hsv
+      rw [if_neg (by simpa using hrc), if_neg (by omega), if_neg (by simpa using hra)] at h
+      split at h
+      · cases h
+      · rename_i r2 ed2 hx
+        exact (hnest _ _ _ _ _ _ _ hreg0 hr hrc hdp hra hx).2 s hsv
 
 /-! ### `:e` -/
 
